@@ -289,26 +289,9 @@ def run(prog: Program, res: Result) -> None:
             else:
                 res.ok("C14.R3", site, what, "self.cache[key] = <loaded> on every normal path from the load to the return")
 
-    # Template.is_up_to_date: anything but a real bool from uptodate() counts as stale (an async uptodate called from the sync path returns a coroutine object)
-    tm = prog.cls("liquid2.template.Template").methods.get("is_up_to_date")
-    if tm is None:
-        raise AnalysisError("Template.is_up_to_date vanished")
-    tcfg = CFG(tm.node)
-    what = "Template.is_up_to_date returns the uptodate() result only after checking it is a bool; otherwise stale"
-    rets = [n for n in tcfg.nodes if n.kind == "stmt" and isinstance(n.node, ast.Return) and isinstance(n.node.value, ast.Name)]
+    from checks.shared import check_uptodate_is_bool
 
-    ok = bool(rets)
-    for r in rets:
-        v = r.node.value.id
-        g = guarded_by_test(tcfg, r, lambda e, v=v: (True if norm(e) == f"not isinstance({v}, bool)" else (False if norm(e) == f"isinstance({v}, bool)" else None)))
-        if g is None:
-            ok = False
-    if any(isinstance(n.node, ast.Return) and isinstance(n.node.value, ast.Call) and norm(n.node.value.func) in ("bool",) for n in tcfg.nodes if n.kind == "stmt"):
-        ok = False
-    if ok:
-        res.ok("C14.R3", f"{tm.file}:{tm.node.lineno} Template.is_up_to_date", what, "isinstance(_, bool) guard dominates the return")
-    else:
-        res.fail("C14.R3", file=tm.file, line=tm.node.lineno, qualname="Template.is_up_to_date", construct="is_up_to_date returns a non-bool-checked value", message="a non-bool uptodate() result (e.g. the coroutine of an async uptodate called from the sync path) is treated as fresh: a template loaded asynchronously is never reloaded by the sync path", what=what)
+    check_uptodate_is_bool(prog, res, "C14.R3")
 
     # ------------------------------------------------------------------ R4 LRU shape
     res.rule("C14.R4", "LRUCache: _cache touched only inside the LRU classes; reads and writes refresh recency; eviction pops the oldest entry, only when full, only for a new key, before the insert; ThreadSafeLRUCache wraps every accessor under the lock")
